@@ -31,6 +31,11 @@ def step (cfg : Cfg) (_ : Unit) (line : String) : Unit × String :=
     match algOf a with
     | some _ => ((), "ok")
     | none => ((), "bad-op")
+  | "rtc" :: a :: _ =>
+    -- same assumption, under concurrent use of one compressor object (the wrapper keeps no state)
+    match algOf a with
+    | some _ => ((), "ok")
+    | none => ((), "bad-op")
   | "rtb" :: a :: _ =>
     -- same assumption, for several values compressed before any is decompressed
     match algOf a with
